@@ -14,7 +14,7 @@ open Glonax.Driver
 def dispatch (prop : String) (inp out : List String) : Verdict :=
   match prop with
   | "C07" => C07.check inp out
-  | "C01" => C01.check inp out
+  | "C01" => if inp.head? == some "auth" then AuthDrv.check "C01" inp out else C01.check inp out
   | "C02" => C02.check inp out
   | "C17" => C17.check inp out
   | "C13" => C13.check inp out
